@@ -137,6 +137,26 @@ def check_pair(res, a, b, A=None, B=None):
         else:
             if it != ref:
                 _V(res, 'intersection_wrong', case, f'{name}({a},{b}) = {it}, common pixels are {ref}', ref, it)
+    # augmented assignment: `t = A; t |= B` gives the union as t and leaves the box A refers to as it was (boxes are values)
+    for opname, want in (('|=', _hull(a, b) if not (_empty(a) or _empty(b)) else None), ('&=', ref)):
+        def aug():
+            t = A
+            if opname == '|=':
+                t |= B
+            else:
+                t &= B
+            return t
+        ok, t = _call(res, aug)
+        if not ok:
+            _V(res, 'union_raises' if opname == '|=' else 'intersection_raises', case, f'{opname} raised {t}')
+            continue
+        if _tup(A) != tuple(a) or _tup(B) != tuple(b):
+            _V(res, 'operand_modified', case, f'`t = A; t {opname} B` changed an operand: A = {_tup(A)} (was {tuple(a)}), B = {_tup(B)} (was {tuple(b)})',
+               list(a), list(_tup(A)))
+            A, B = _mk(a), _mk(b)
+        if want is not None and (t is None or _tup(t) != want):
+            _V(res, 'union_wrong' if opname == '|=' else 'intersection_wrong', case, f'`t = A; t {opname} B` gives {None if t is None else _tup(t)}, '
+                                                                                    f'expected {want}', list(want), None if t is None else list(_tup(t)))
     # equality ------------------------------------------------------------------
     ok, e = _call(res, lambda: A == B)
     if not ok:
@@ -301,18 +321,28 @@ def check_slices(res, a, shape, coords=None, tname=None):
         res.nontriv(('slices', a, shape))
 
 
+def _frac(v):
+    """Exact rational value of a float of any precision."""
+    if isinstance(v, np.longdouble):
+        n, d = v.as_integer_ratio()
+        return Fraction(int(n), int(d))
+    return Fraction(v)
+
+
 def _ref_from_float(xmin, xmax, ymin, ymax):
     def lo(v):
-        return math.floor(Fraction(v) + Fraction(1, 2))
+        return math.floor(_frac(v) + Fraction(1, 2))
 
     def hi(v):
-        return math.ceil(Fraction(v) + Fraction(1, 2))
+        return math.ceil(_frac(v) + Fraction(1, 2))
     return (lo(xmin), hi(xmax), lo(ymin), hi(ymax))
 
 
 def check_from_float(res, rect):
     from regions import RegionBoundingBox
     case = {'op': 'from_float', 'rect': [float(v) for v in rect]}
+    if any(isinstance(v, np.longdouble) for v in rect):
+        case['rect_longdouble'] = [[int(x) for x in np.longdouble(v).as_integer_ratio()] for v in rect]
     ok, b = _call(res, lambda: RegionBoundingBox.from_float(*rect))
     if not ok:
         _V(res, 'from_float_raises', case, f'from_float{tuple(rect)} raised {b}')
@@ -325,13 +355,13 @@ def check_from_float(res, rect):
     # independent restatement: the extent covers, and shrinking any side uncovers
     e = (Fraction(bt[0]) - Fraction(1, 2), Fraction(bt[1]) - Fraction(1, 2),
          Fraction(bt[2]) - Fraction(1, 2), Fraction(bt[3]) - Fraction(1, 2))
-    fx0, fx1, fy0, fy1 = (Fraction(v) for v in rect)
+    fx0, fx1, fy0, fy1 = (_frac(v) for v in rect)
     covers = e[0] <= fx0 and e[1] >= fx1 and e[2] <= fy0 and e[3] >= fy1
     minimal = (e[0] + 1 > fx0 and e[1] - 1 < fx1 and e[2] + 1 > fy0 and e[3] - 1 < fy1)
     if not covers or not minimal:
         _V(res, 'from_float_wrong', case, f'from_float{tuple(rect)} = {bt}: covers={covers} minimal={minimal}',
            list(exp), list(bt))
-    onb = any((Fraction(v) + Fraction(1, 2)).denominator == 1 for v in rect)
+    onb = any((_frac(v) + Fraction(1, 2)).denominator == 1 for v in rect)
     res.outcome(('from_float', onb))
     if onb:
         res.nontriv(('ff', [float(v) for v in rect]))
@@ -587,6 +617,20 @@ def run_shard(shard, tier, seed):
                         res.evaluations += 2
                         check_from_float(res, (lo, hi, -0.5, 0.5))
                         check_from_float(res, (0.25, 0.75, lo, hi))
+        # the same with extended-precision limits closer to the edge than a double can express
+        if np.finfo(np.longdouble).eps < 1e-18:
+            ld = np.longdouble
+            for lo_b in (0.5, -2.5, 8.5):
+                for e1 in (ld(2) ** -60, -(ld(2) ** -60), ld(2) ** -64, -(ld(2) ** -64), ld(0)):
+                    for e2 in (ld(2) ** -60, -(ld(2) ** -60), ld(0)):
+                        lo, hi = ld(lo_b) + e1, ld(lo_b) + ld(2) + e2
+                        res.states += 1
+                        res.evaluations += 2
+                        check_from_float(res, (lo, hi, ld(-0.5), ld(0.5)))
+                        check_from_float(res, (ld(0.25), ld(0.75), lo, hi))
+            res.axis('longdouble_limits', 'checked')
+        else:
+            res.axis('longdouble_limits', 'not available on this platform')
         res.sample({'op': 'from_float', 'rect': [0.5 - 2.0 ** -42, 2.5 + 2.0 ** -42, -0.5, 0.5]})
     elif k == 'ctor':
         for idx in range(len(_BAD_CTOR)):
@@ -649,7 +693,10 @@ def replay(case):
     elif op == 'slices':
         check_slices(res, tuple(case['a']), tuple(case['shape']), tname=case.get('t'))
     elif op == 'from_float':
-        check_from_float(res, tuple(case['rect']))
+        if 'rect_longdouble' in case:
+            check_from_float(res, tuple(np.longdouble(n) / np.longdouble(d) for n, d in case['rect_longdouble']))
+        else:
+            check_from_float(res, tuple(case['rect']))
     elif op == 'ctor':
         check_ctor(res, case['idx'])
     elif op == 'typed_extremes':
